@@ -61,7 +61,8 @@ Proof. intros n cc code []. Qed.
 (* the literal (ps, body) is well-kinded under the captured context G, with parameter kinds pk and result kind r *)
 Definition kfn_ok (G : kctx) (ps : list str) (body : list stmt) (pk : list kind) (r : kind) : Prop :=
   pk = map (pkind body) ps /\ NoDup ps /\ forallb src_nameb ps = true /\ map fst G = free_vars ps body /\
-  exists B' rets, kblock (rev (combine ps pk)) G body = Some (B', rets) /\ (forall k, In k rets -> k = r).
+  (r = KN \/ last_ret body = true) /\
+  exists B' rets, kblock (Some (pk, r)) (rev (combine ps pk)) G body = Some (B', rets) /\ (forall k, In k rets -> k = r).
 
 Definition clos_ok (b : cinj) (pk : list kind) (r : kind) (ps : list str) (body : list stmt) (cenv : list scope)
            (loc : str) (cb : option (list (str * N))) : Prop :=
@@ -73,7 +74,7 @@ Definition clos_ok (b : cinj) (pk : list kind) (r : kind) (ps : list str) (body 
 
 Definition vrel (b : cinj) (k : kind) (v : rvalue) (w : value) : Prop :=
   match k with
-  | KD => first_order v /\ w = inj v
+  | KD | KN => first_order v /\ w = inj v
   | KF pk r => exists ps body cenv loc cb, v = RClos ps body cenv /\ w = VFun loc cb /\ clos_ok b pk r ps body cenv loc cb
   end.
 
@@ -90,7 +91,7 @@ Proof.
 Qed.
 Lemma vrel_mono : forall b b' k v w, cinj_le b b' -> vrel b k v w -> vrel b' k v w.
 Proof.
-  intros b b' [|pk r] v w Hle H; [exact H|]. destruct H as (ps & body & cenv & loc & cb & E1 & E2 & H).
+  intros b b' [|pk r|] v w Hle H; [exact H| |exact H]. destruct H as (ps & body & cenv & loc & cb & E1 & E2 & H).
   exists ps, body, cenv, loc, cb. split; [exact E1|]. split; [exact E2|]. eapply clos_ok_mono; eassumption.
 Qed.
 
@@ -250,10 +251,29 @@ Section Act.
 Variable cb : option (list (str * N)).     (* the captured cells of the executing function value (a_cb) *)
 Variable CD : kctx.                        (* the captured names and their kinds *)
 Variable base : list frame.                (* the frames of the callers *)
+Variable fnm : str.                        (* the name of the executing function (call_self) *)
+Variable SF : sfk.                         (* inside a function literal: the kinds of its parameters and result *)
 
 (* B lists exactly the names bound in the scopes of the activation *)
 Definition bound2 (B : kctx) (env : fenv) : Prop :=
   (forall x, lookup_scopes x (locals env) <> None <-> In x (map fst B)) /\ (forall x, In x (map fst B) -> uname0 x).
+
+(* the executing function value is a closure related to (fnm, cb): what `self(..)` calls *)
+Definition cur_ok (b : cinj) (env : fenv) : Prop :=
+  match SF with
+  | Some (pk, r) => exists ps body cenv, cur env = Some (RClos ps body cenv) /\ clos_ok b pk r ps body cenv fnm cb
+  | None => True end.
+Lemma cur_ok_mono : forall b b' env, cinj_le b b' -> cur_ok b env -> cur_ok b' env.
+Proof.
+  unfold cur_ok. intros b b' env Hle H. destruct SF as [[pk r]|]; [|exact Logic.I].
+  destruct H as (ps & body & cenv & E & H). exists ps, body, cenv. split; [exact E|]. eapply clos_ok_mono; eassumption.
+Qed.
+Lemma cur_ok_eq : forall b env env', cur env' = cur env -> cur_ok b env -> cur_ok b env'.
+Proof. unfold cur_ok. intros b env env' E H. destruct SF as [[pk r]|]; [|exact Logic.I]. now rewrite E. Qed.
+Lemma cf_top : forall f f' fs, lab f' = lab f -> current_function (f' :: fs) = current_function (f :: fs).
+Proof. intros f f' fs E. cbn [current_function]. now rewrite E. Qed.
+Lemma cf_special : forall f fs, special (lab f) = true -> current_function (f :: fs) = current_function fs.
+Proof. intros f fs H. cbn [current_function]. destruct (lab f); [discriminate|reflexivity..]. Qed.
 
 Record Cl (b : cinj) (B : kctx) (env : fenv) (s : rstate) (g : gstate) : Prop := {
   cl_heap : heap_ok b s g;
@@ -265,7 +285,9 @@ Record Cl (b : cinj) (B : kctx) (env : fenv) (s : rstate) (g : gstate) : Prop :=
   cl_out : out g = rout s;
   cl_base : skipn (length (locals env)) (frames g) = base;
   cl_ns : NS (locals env);
-  cl_nd : frames_nd (frames g)
+  cl_nd : frames_nd (frames g);
+  cl_cf : current_function (frames g) = Some fnm;
+  cl_cur : cur_ok b env
 }.
 
 Lemma Cl_ne : forall b B env s g, Cl b B env s g -> locals env <> [].
@@ -275,7 +297,7 @@ Proof. intros b B env s g H. exact (proj1 (Rfr2_ne _ _ _ (cl_fr _ _ _ _ _ H))). 
 Lemma Cl_same : forall b B env s g g', Cl b B env s g -> cells g' = cells g -> frames g' = frames g -> out g' = out g ->
   Cl b B env s g'.
 Proof.
-  intros b B env s g g' [H1 H2 H3 H4 H5 H6 H7 H8] Ec Ef Eo. constructor; rewrite ?Ef, ?Eo; try assumption.
+  intros b B env s g g' [H1 H2 H3 H4 H5 H6 H7 H8 H9 H10] Ec Ef Eo. constructor; rewrite ?Ef, ?Eo; try assumption.
   eapply heap_ok_same; [exact H1|reflexivity|exact Ec].
 Qed.
 
@@ -283,24 +305,25 @@ Qed.
 Lemma Cl_after : forall b b' B env s g s' g', Cl b B env s g -> cinj_le b b' -> heap_ok b' s' g' ->
   frames g' = frames g -> out g' = rout s' -> Cl b' B env s' g'.
 Proof.
-  intros b b' B env s g s' g' [H1 H2 H3 H4 H5 H6 H7 H8] Hle Hh Ef Eo. constructor; rewrite ?Ef; try assumption.
+  intros b b' B env s g s' g' [H1 H2 H3 H4 H5 H6 H7 H8 H9 H10] Hle Hh Ef Eo. constructor; rewrite ?Ef; try assumption.
   - eapply Rfr2_mono; eassumption.
   - intros x k E. destruct (H3 x k E) as (Hx & c & c' & A1 & A2 & A3). split; [exact Hx|]. exists c, c'. auto.
   - intros x k E. destruct (H4 x k E) as (Hx & c & c' & A1 & A2 & A3). split; [exact Hx|]. exists c, c'. auto.
+  - eapply cur_ok_mono; eassumption.
 Qed.
 
 (* an existing variable / a captured variable is written *)
 Lemma Cl_update : forall b B env s g c c' k v w, Cl b B env s g -> b c c' k -> vrel b k v w ->
   Cl b B env (sset s c v) (cell_set g c' w).
 Proof.
-  intros b B env s g c c' k v w [H1 H2 H3 H4 H5 H6 H7 H8] Hb Hv. constructor; cbn [sset cell_set frames out rout]; try assumption.
+  intros b B env s g c c' k v w [H1 H2 H3 H4 H5 H6 H7 H8 H9 H10] Hb Hv. constructor; cbn [sset cell_set frames out rout]; try assumption.
   eapply heap_update; eassumption.
 Qed.
 
 (* a line is printed *)
 Lemma Cl_print : forall b B env s g l, Cl b B env s g -> Cl b B env (sprint s l) (emit_line g l).
 Proof.
-  intros b B env s g l [H1 H2 H3 H4 H5 H6 H7 H8]. constructor; cbn [sprint emit_line frames out rout]; try assumption.
+  intros b B env s g l [H1 H2 H3 H4 H5 H6 H7 H8 H9 H10]. constructor; cbn [sprint emit_line frames out rout]; try assumption.
   now rewrite H5.
 Qed.
 
@@ -312,7 +335,7 @@ Lemma Cl_bind_reg : forall b B env s g y w, Cl b B env s g -> ~ uname0 y ->
                  out := out g; trace := trace g |} in
     bind_local g y w = Some g' /\ Cl b B env s g'.
 Proof.
-  intros b B env s [cs fs o tr] y w [H1 H2 H3 H4 H5 H6 H7 H8] Hy. cbn [cells frames out trace] in *.
+  intros b B env s [cs fs o tr] y w [H1 H2 H3 H4 H5 H6 H7 H8 H9 H10] Hy. cbn [cells frames out trace] in *.
   destruct fs as [|f fs]; [destruct (Rfr2_ne _ _ _ H2); congruence|]. exists f, fs. split; [reflexivity|]. cbv zeta.
   split; [reflexivity|].
   assert (Hfind : forall x, uname0 x -> find_in_function x ({| lab := lab f; vars := assoc_set y (N.of_nat (length cs)) (vars f) |} :: fs)
@@ -339,7 +362,7 @@ Lemma Cl_declare : forall b B env s g x k v w sc l f fs,
                           out := out g; trace := tr |} in
   Cl b' ((x, k) :: B) env' s' g' /\ bext b b' s g.
 Proof.
-  intros b B [lc cap cu] [st ro] [cs fr o tr0] x k v w sc l f fs [H1 H2 H3 H4 H5 H6 H7 H8] Hx Hv El Ef Hn HB c c' b' env' s' tr g'.
+  intros b B [lc cap cu] [st ro] [cs fr o tr0] x k v w sc l f fs [H1 H2 H3 H4 H5 H6 H7 H8 H9 H10] Hx Hv El Ef Hn HB c c' b' env' s' tr g'.
   cbn [locals captured cur store rout cells frames out] in *. subst lc fr.
   destruct (heap_alloc b _ _ k v w H1 Hv s' g' eq_refl eq_refl) as [Hh He]. fold c c' b' in Hh, He.
   assert (Hle : cinj_le b b') by exact (proj1 He).
@@ -357,19 +380,22 @@ Proof.
   - cbn [length skipn] in *. exact H6.
   - apply NS_declare; [exact H7|right; exact Hn].
   - apply (nd_top f fs); [exact H8|]. apply keys_nd_assoc_set. inversion H8; assumption.
+  - exact H9.
+  - eapply cur_ok_mono; [exact Hle|]. eapply cur_ok_eq; [|exact H10]. reflexivity.
 Qed.
 
 (* entering / leaving a block *)
 Lemma Cl_push : forall b B env s g lb, Cl b B env s g -> special lb = true ->
   Cl b B (push_scope env) s (push_frame g lb).
 Proof.
-  intros b B env s g lb H Hs. pose proof (Cl_ne _ _ _ _ _ H) as Hne. destruct H as [H1 H2 H3 H4 H5 H6 H7 H8].
+  intros b B env s g lb H Hs. pose proof (Cl_ne _ _ _ _ _ H) as Hne. destruct H as [H1 H2 H3 H4 H5 H6 H7 H8 H9 H10].
   constructor; cbn [push_scope push_frame with_frames locals captured frames out cells]; try assumption.
   - now apply Rfr2_push.
   - intros x k E. destruct (H3 x k E) as (Hx & c & c' & A1 & A2 & A3). split; [exact Hx|]. exists c, c'.
     cbn [lookup_scopes assoc find_in_function vars lab]. rewrite Hs. auto.
   - now apply NS_push.
   - constructor; [constructor|exact H8].
+  - rewrite <- H9. apply cf_special. exact Hs.
 Qed.
 
 Lemma Cl_pop : forall b B B0 env s g sc l f fs,
@@ -377,7 +403,7 @@ Lemma Cl_pop : forall b B B0 env s g sc l f fs,
   (forall x k, assoc x B0 = Some k -> assoc x B = Some k /\ lookup_scopes x l <> None) ->
   Cl b B0 (pop_scope env) s (with_frames g fs).
 Proof.
-  intros b B B0 [lc cap cu] s [cs fr o tr] sc l f fs [H1 H2 H3 H4 H5 H6 H7 H8] El Hl Ef HB0.
+  intros b B B0 [lc cap cu] s [cs fr o tr] sc l f fs [H1 H2 H3 H4 H5 H6 H7 H8 H9 H10] El Hl Ef HB0.
   cbn [locals captured cur cells frames out] in *. subst lc fr.
   destruct l as [|sc' l']; [congruence|].
   constructor; cbn [pop_scope with_frames locals captured cur tl cells frames out]; try assumption.
@@ -393,6 +419,7 @@ Proof.
     destruct (proj2 H1 _ _ _ _ _ _ A3 Hk) as [Hiff Hkk]. assert (c' = d') by (apply Hiff; reflexivity). subst d'. exact A3.
   - exact (proj2 H7).
   - inversion H8; assumption.
+  - rewrite <- H9. symmetry. apply cf_special. eapply Rfr2_top_special; exact H2.
 Qed.
 (* the end of a from loop: the counter leaves the innermost scope / the top frame (together with VM-only names) *)
 Lemma Cl_undeclare : forall b B env s g x k sc l f fs vs,
@@ -401,7 +428,7 @@ Lemma Cl_undeclare : forall b B env s g x k sc l f fs vs,
   assoc x (assoc_del x sc) = None -> lookup_scopes x l = None -> keys_nd vs ->
   Cl b B (undeclare env x) s (with_frames g ({| lab := lab f; vars := vs |} :: fs)).
 Proof.
-  intros b B [lc cap cu] s [cs fr o tr] x k sc l f fs vs [H1 H2 H3 H4 H5 H6 H7 H8] El Ef Hx HxB Hvs Hxv Hxs Hxl Hnd.
+  intros b B [lc cap cu] s [cs fr o tr] x k sc l f fs vs [H1 H2 H3 H4 H5 H6 H7 H8 H9 H10] El Ef Hx HxB Hvs Hxv Hxs Hxl Hnd.
   cbn [locals captured cur cells frames out] in *. subst lc fr. unfold undeclare. cbn [locals captured cur with_frames frames cells out].
   constructor; cbn [locals captured cur cells frames out]; try assumption.
   - eapply Rfr2_undeclare; eassumption.
